@@ -118,7 +118,7 @@ theorem len_iter_spec (ops : List (Op υ α)) :
       (nodup_of_nodup_map Prod.fst (nodup_lastEntries_keys _))]
     rintro ⟨k, v⟩
     rw [mem_items _ hwf, get_run, mem_lastEntries]
-  refine ⟨hperm, hperm.map _, ?_⟩
+  refine ⟨hperm, (values_perm _).trans (hperm.map _), ?_⟩
   unfold LruTrie.len
   rw [C10.len_spec _ hwf, hperm.length_eq]
 
